@@ -31,9 +31,10 @@ const (
 	eChWriteBytes // Channel.Write([]byte) through the pipeline
 	eChWriteBuf   // Channel.Write(*bytes.Buffer)
 	eReadFromFrag // ReadFrom a reader that delivers its content in short reads
+	eChWriteRd    // Channel.Write(io.Reader) through the pipeline
 )
 
-var epName = []string{"Write1", "Writev/1", "Writev/2", "Writev/3", "CtxWrite1", "CtxWritev/1", "CtxWritev/2", "Writer.Write", "ReadFrom", "Channel.Write([]byte)", "Channel.Write(*Buffer)", "ReadFrom/short-reads"}
+var epName = []string{"Write1", "Writev/1", "Writev/2", "Writev/3", "CtxWrite1", "CtxWritev/1", "CtxWritev/2", "Writer.Write", "ReadFrom", "Channel.Write([]byte)", "Channel.Write(*Buffer)", "ReadFrom/short-reads", "Channel.Write(Reader)"}
 
 func segs(p []byte, n int) [][]byte {
 	switch n {
@@ -84,6 +85,8 @@ func do(ch netty.Channel, ep int, p []byte) (int64, error) {
 		return int64(len(p)), ch.Write(p)
 	case eChWriteBuf:
 		return int64(len(p)), ch.Write(bytes.NewBuffer(p))
+	case eChWriteRd:
+		return int64(len(p)), ch.Write(onlyReader{bytes.NewReader(p)})
 	}
 	panic("ep")
 }
@@ -192,6 +195,9 @@ func scenario(cfg hlib.ChanCfg, eps []int, sizes []int, scribbler bool, bound in
 					if c.OK() && c.Size > 0 && !on[c.ID] {
 						fs = append(fs, explore.Finding{Key: "accepted-not-sent/" + epName[o.eps[i]], Msg: fmt.Sprintf("payload #%d accepted but never transmitted; log: %s", c.ID, t.LogString())})
 					}
+					if c.Err != nil && c.N == 0 && on[c.ID] && o.eps[i] < eChWriteBytes {
+						fs = append(fs, explore.Finding{Key: "rejected-call-sent/" + epName[o.eps[i]], Msg: fmt.Sprintf("call #%d returned (0, %v) but bytes carrying its payload were transmitted; log: %s", c.ID, c.Err, t.LogString())})
+					}
 				}
 			}
 			return fs
@@ -234,6 +240,20 @@ func build(tier string) []*explore.Scenario {
 				}
 				scs = append(scs, sc)
 			}
+		}
+	}
+	// Rejected writes on a full non-blocking queue (single-chunk payloads only: nothing is ever partially
+	// accepted) followed by accepted writes of the same size class: a rejected call's buffer handling
+	// must not disturb the payloads queued later.
+	rej := []mix{
+		{[]int{eWrite1, eReadFrom, eWrite1, eWrite1, eWrite1}, []int{8, 8, 8, 6, 7}},
+		{[]int{eWritev2, eReadFrom, eWritev1, eCtxWrite1, eWrite1}, []int{8, 8, 8, 6, 7}},
+		{[]int{eCtxWrite1, eWrite1, eCtxWritev2, eWritev2, eWrite1}, []int{8, 8, 8, 6, 7}},
+		{[]int{eWrite1, eWrite1, eReadFrom, eWrite1, eWrite1, eWrite1}, []int{8, 8, 8, 8, 6, 7}},
+	}
+	for _, cfg := range []hlib.ChanCfg{{1, false}, {2, false}} {
+		for _, m := range rej {
+			scs = append(scs, scenario(cfg, m.eps, m.sizes, false, bound))
 		}
 	}
 	return scs
